@@ -50,6 +50,23 @@ def counters_rule(F, R, rule):
     e5_counters(F, R, M, tfield, lfield, rule=rule)
 
 
+def pop_rule(F, R, rule):
+    """E1 + E2 under another property's rule name: a refused completion poll changes nothing, a successful one consumes exactly
+    the head of the used ring - id and length read from the slot of the trusted index - and releases that chain."""
+    M = model(F)
+    M.require_rings()
+    roles = C05.classify_api(C05.queue_api(F, M))
+    by = {}
+    for k, v in roles.items():
+        by.setdefault(v, []).append(k)
+    lf = last_used_field(F, M, by['can_pop'][0]) if 'can_pop' in by else None
+    if lf is None or 'pop_used' not in by:
+        raise Undecided('completion functions of the queue not found (%s)' % rule)
+    P = RuleProxy(R, {'E1': rule, 'E2': rule})
+    e1_e2_pop(F, P, M, by['pop_used'][0], lf)
+    e2b_all_slots(F, P, M, lf)
+
+
 def wrap_rule(F, R, rule):
     """E5 + E9 under another property's rule name: completions keep being seen after the 16-bit ring indices wrap
     (wrap-safe counters and the folded completion test)."""
